@@ -2378,12 +2378,24 @@ class quantized_relu(base_quantizer.BaseQuantizer):  # pylint: disable=invalid-n
                                               ) else self.integer))
 
     flags = [str(self.bits), integer_bits]
-    if self.use_sigmoid or self.use_stochastic_rounding:
+    if self.use_sigmoid:
       flags.append(str(int(self.use_sigmoid)))
+    # the remaining options are printed by keyword so that they cannot land in
+    # the wrong positional slot when an earlier option is left out.
     if self.negative_slope:
-      flags.append(str(self.negative_slope))
+      flags.append("negative_slope=" + str(self.negative_slope))
     if self.use_stochastic_rounding:
-      flags.append(str(int(self.use_stochastic_rounding)))
+      flags.append("use_stochastic_rounding=" +
+                   str(int(self.use_stochastic_rounding)))
+    if self.relu_upper_bound is not None:
+      flags.append("relu_upper_bound=" + str(self.relu_upper_bound))
+    if not self.is_quantized_clip:
+      flags.append("is_quantized_clip=False")
+    qnoise_factor = (
+        self.qnoise_factor.numpy() if isinstance(
+            self.qnoise_factor, tf.Variable) else self.qnoise_factor)
+    if qnoise_factor != 1.0:
+      flags.append("qnoise_factor=" + str(float(qnoise_factor)))
     return "quantized_relu(" + ",".join(flags) + ")"
 
   def __call__(self, x):
